@@ -94,6 +94,7 @@ def run(ctx):
             for e in r["log"]:
                 e.setdefault("rv", 0)
                 f.write(json.dumps(e) + "\n"); nlines += 1
+    common.corrupt_trace(tf, ["depth", "live"])
     ttxt, tinfo = common.tlc(ctx, "Trace_ZnVM", "Trace_ZnVM.cfg", workers=1, timeout=900, files=[(tf, "trace.ndjson")], allow_violation=True)
     accepted = not tinfo["violated"]
     if not accepted:
